@@ -62,8 +62,8 @@ def ns_config(draw, tier: str, kinds=None, n_min_fn=None, widths=(0, 1, 2, 3, 4)
         cfg["width"] = draw(st.sampled_from(list(widths)))
         if kind == "ns3d":
             cfg["filter"] = draw(st.one_of(st.none(), st.just({"type": "multiplicative", "order": 2}), st.fixed_dictionaries(
-                {"type": st.sampled_from(["multiplicative", "convolution"]), "order": st.integers(1, 3)}),
-                st.fixed_dictionaries({"type": st.sampled_from(["multiplicative", "convolution"]), "order": st.integers(1, 3)}))) \
+                {"type": st.sampled_from(["multiplicative", "convolution"]), "order": st.sampled_from([1, 2, 3, 3, 4])}),
+                st.fixed_dictionaries({"type": st.sampled_from(["multiplicative", "convolution"]), "order": st.sampled_from([1, 2, 3, 3, 4])}))) \
                 if filters else None
             cfg["poisson"] = draw(st.sampled_from(["greens_function_convolution", "fast_diagonalisation"])) \
                 if fastdiag else "greens_function_convolution"
